@@ -386,6 +386,19 @@ def continuation_flood(ch, sid):
     return out
 
 
+def frame_flood(ch):
+    """A long run (more than the interpreter's recursion limit) of small frames of one kind that the receiver
+    handles without keeping anything: ALTSVC, unknown extension frames, PRIORITY, PING, empty SETTINGS,
+    connection WINDOW_UPDATE."""
+    n = ch.pick([1100, 1500, 2500])
+    kind = ch.pick(['altsvc', 'altsvc-stream', 'unknown', 'priority', 'ping', 'settings', 'window-update'])
+    one = {'altsvc': wire.altsvc(0, b'example.com', b'h2=":1"'), 'altsvc-stream': wire.altsvc(1, b'', b'h2=":1"'),
+           'unknown': wire.raw(0x55, 0, ch.pick([0, 1]), b'u'), 'priority': wire.priority(ch.pick([1, 9, 101]), 0, 7),
+           'ping': wire.ping(b'floodfld'), 'settings': wire.settings(),
+           'window-update': wire.window_update(0, 1)}[kind]
+    return [one] * n, kind
+
+
 def mutate_bytes(ch, data, start=0):
     data = bytearray(data)
     for _ in range(ch.int(1, 4)):
